@@ -106,9 +106,9 @@ Proofs/AgentProps.vos Proofs/AgentProps.vok Proofs/AgentProps.required_vos: Proo
 Properties/C09.vo Properties/C09.glob Properties/C09.v.beautified Properties/C09.required_vo: Properties/C09.v Model/Types.vo Model/Book.vo Model/Rng.vo Model/Float.vo Model/Env.vo Model/Agents.vo
 Properties/C09.vio: Properties/C09.v Model/Types.vio Model/Book.vio Model/Rng.vio Model/Float.vio Model/Env.vio Model/Agents.vio
 Properties/C09.vos Properties/C09.vok Properties/C09.required_vos: Properties/C09.v Model/Types.vos Model/Book.vos Model/Rng.vos Model/Float.vos Model/Env.vos Model/Agents.vos
-Properties/C16.vo Properties/C16.glob Properties/C16.v.beautified Properties/C16.required_vo: Properties/C16.v Model/Types.vo Model/Side.vo Model/Book.vo Model/Rng.vo Model/Float.vo Model/Env.vo Model/Agents.vo Proofs/AgentProps.vo
-Properties/C16.vio: Properties/C16.v Model/Types.vio Model/Side.vio Model/Book.vio Model/Rng.vio Model/Float.vio Model/Env.vio Model/Agents.vio Proofs/AgentProps.vio
-Properties/C16.vos Properties/C16.vok Properties/C16.required_vos: Properties/C16.v Model/Types.vos Model/Side.vos Model/Book.vos Model/Rng.vos Model/Float.vos Model/Env.vos Model/Agents.vos Proofs/AgentProps.vos
+Properties/C16.vo Properties/C16.glob Properties/C16.v.beautified Properties/C16.required_vo: Properties/C16.v Model/Types.vo Model/Side.vo Model/Book.vo Model/Rng.vo Model/Float.vo Model/Env.vo Model/Agents.vo Proofs/AgentProps.vo Proofs/AgentDir.vo Proofs/AgentOrders.vo
+Properties/C16.vio: Properties/C16.v Model/Types.vio Model/Side.vio Model/Book.vio Model/Rng.vio Model/Float.vio Model/Env.vio Model/Agents.vio Proofs/AgentProps.vio Proofs/AgentDir.vio Proofs/AgentOrders.vio
+Properties/C16.vos Properties/C16.vok Properties/C16.required_vos: Properties/C16.v Model/Types.vos Model/Side.vos Model/Book.vos Model/Rng.vos Model/Float.vos Model/Env.vos Model/Agents.vos Proofs/AgentProps.vos Proofs/AgentDir.vos Proofs/AgentOrders.vos
 Properties/C17.vo Properties/C17.glob Properties/C17.v.beautified Properties/C17.required_vo: Properties/C17.v Model/Types.vo Model/Side.vo Model/Book.vo Model/Rng.vo Model/Float.vo Model/Env.vo Model/Agents.vo Proofs/AgentProps.vo Proofs/AgentDir.vo
 Properties/C17.vio: Properties/C17.v Model/Types.vio Model/Side.vio Model/Book.vio Model/Rng.vio Model/Float.vio Model/Env.vio Model/Agents.vio Proofs/AgentProps.vio Proofs/AgentDir.vio
 Properties/C17.vos Properties/C17.vok Properties/C17.required_vos: Properties/C17.v Model/Types.vos Model/Side.vos Model/Book.vos Model/Rng.vos Model/Float.vos Model/Env.vos Model/Agents.vos Proofs/AgentProps.vos Proofs/AgentDir.vos
@@ -166,6 +166,9 @@ Proofs/RestGrid.vos Proofs/RestGrid.vok Proofs/RestGrid.required_vos: Proofs/Res
 Proofs/AgentDir.vo Proofs/AgentDir.glob Proofs/AgentDir.v.beautified Proofs/AgentDir.required_vo: Proofs/AgentDir.v Model/Types.vo Model/Side.vo Model/Book.vo Model/Rng.vo Model/Float.vo Model/Env.vo Model/Agents.vo Proofs/Basic.vo Proofs/EnvProps.vo Proofs/AgentProps.vo
 Proofs/AgentDir.vio: Proofs/AgentDir.v Model/Types.vio Model/Side.vio Model/Book.vio Model/Rng.vio Model/Float.vio Model/Env.vio Model/Agents.vio Proofs/Basic.vio Proofs/EnvProps.vio Proofs/AgentProps.vio
 Proofs/AgentDir.vos Proofs/AgentDir.vok Proofs/AgentDir.required_vos: Proofs/AgentDir.v Model/Types.vos Model/Side.vos Model/Book.vos Model/Rng.vos Model/Float.vos Model/Env.vos Model/Agents.vos Proofs/Basic.vos Proofs/EnvProps.vos Proofs/AgentProps.vos
+Proofs/AgentOrders.vo Proofs/AgentOrders.glob Proofs/AgentOrders.v.beautified Proofs/AgentOrders.required_vo: Proofs/AgentOrders.v Model/Types.vo Model/Side.vo Model/Book.vo Model/Rng.vo Model/Float.vo Model/Env.vo Model/Agents.vo Proofs/Basic.vo Proofs/EnvProps.vo Proofs/AgentProps.vo Proofs/AgentDir.vo
+Proofs/AgentOrders.vio: Proofs/AgentOrders.v Model/Types.vio Model/Side.vio Model/Book.vio Model/Rng.vio Model/Float.vio Model/Env.vio Model/Agents.vio Proofs/Basic.vio Proofs/EnvProps.vio Proofs/AgentProps.vio Proofs/AgentDir.vio
+Proofs/AgentOrders.vos Proofs/AgentOrders.vok Proofs/AgentOrders.required_vos: Proofs/AgentOrders.v Model/Types.vos Model/Side.vos Model/Book.vos Model/Rng.vos Model/Float.vos Model/Env.vos Model/Agents.vos Proofs/Basic.vos Proofs/EnvProps.vos Proofs/AgentProps.vos Proofs/AgentDir.vos
 Properties/C01.vo Properties/C01.glob Properties/C01.v.beautified Properties/C01.required_vo: Properties/C01.v Model/Types.vo Model/Map.vo Model/Side.vo Model/Book.vo Model/Obs.vo Spec/RefBook.vo Proofs/Ledger.vo Proofs/Refine.vo Proofs/RefProps.vo Proofs/Volumes.vo Proofs/Reload.vo Proofs/Progress.vo
 Properties/C01.vio: Properties/C01.v Model/Types.vio Model/Map.vio Model/Side.vio Model/Book.vio Model/Obs.vio Spec/RefBook.vio Proofs/Ledger.vio Proofs/Refine.vio Proofs/RefProps.vio Proofs/Volumes.vio Proofs/Reload.vio Proofs/Progress.vio
 Properties/C01.vos Properties/C01.vok Properties/C01.required_vos: Properties/C01.v Model/Types.vos Model/Map.vos Model/Side.vos Model/Book.vos Model/Obs.vos Spec/RefBook.vos Proofs/Ledger.vos Proofs/Refine.vos Proofs/RefProps.vos Proofs/Volumes.vos Proofs/Reload.vos Proofs/Progress.vos
